@@ -42,7 +42,7 @@ def run_cases(bases, cases_path, trace, work, seed, ncases, wall_per_case=120):
             return deaths
         if p.returncode == 2:
             raise vlib.ToolError("vh c01 run: " + p.stderr.read().decode()[-2000:])
-        ci = int(cur)
+        ci = int(cur.split(":")[0])
         deaths += 1
         if deaths > 200:
             raise vlib.ToolError("the worker died more than 200 times")
